@@ -1920,9 +1920,9 @@ class _PPTableImpl:
             yield CHText.make(FieldType.fit_to_width(
                 [cp.text(self.footer)], table_width, ALIGN_LEFT, cp))
 
-    def _make_table_line(self, cells_ch_texts_data, sep) -> [CHText.Chunk]:
+    def _make_table_line(self, cells_ch_texts_data, sep) -> CHText:
         # helper method wich combines cells text into table line
-        # [[CHText.Chunk]] -> [CHText.Chunk]
+        # [[CHText.Chunk]] -> CHText
         line = [sep]
         is_first = True
         for cell_ch_text_items in cells_ch_texts_data:
@@ -1932,7 +1932,7 @@ class _PPTableImpl:
                 line.append(sep)
             line.extend(cell_ch_text_items)
         line.append(sep)
-        return line
+        return CHText.make(line)
 
 
 #########################
